@@ -70,6 +70,27 @@ namespace fsw
         }
     };
 
+    // A genuinely single-pass input iterator (like std::istreambuf_iterator): all copies share one cursor, a range can be
+    // neither measured nor read twice.
+    template <class CT> struct SPState { const CT* data; size_t pos, n; };
+    template <class CT> struct SinglePass
+    {
+        using iterator_category = std::input_iterator_tag;
+        using value_type = CT;
+        using difference_type = std::ptrdiff_t;
+        using pointer = const CT*;
+        using reference = const CT&;
+        SPState<CT>* st = nullptr;
+        SinglePass() {}
+        explicit SinglePass(SPState<CT>* s) : st(s) {}
+        bool at_end() const { return !st || st->pos >= st->n; }
+        reference operator*() const { return st->data[st->pos]; }
+        SinglePass& operator++() { ++st->pos; return *this; }
+        SinglePass operator++(int) { SinglePass t(*this); ++st->pos; return t; }
+        friend bool operator==(const SinglePass& a, const SinglePass& b) { return a.at_end() == b.at_end(); }
+        friend bool operator!=(const SinglePass& a, const SinglePass& b) { return !(a == b); }
+    };
+
     struct Ret
     {
         bool has_v = false, has_str = false;
@@ -446,7 +467,7 @@ namespace fsw
             int s = st.actor % 3;
             int pi = partner(s, st.c, false);
             FS_VARIANTS("default", "count_ch", "self_pos_count", "self_pos", "string", "string_pos_count", "string_pos",
-                        "ptr_count", "ptr", "ilist", "range", "copy", "move");
+                        "ptr_count", "ptr", "ilist", "range", "copy", "move", "input_range");
             FS_SCOPE("construct", false);
             size_t plen = model[pi].size();
             size_t n = cnt_add(st.a, N);
@@ -475,7 +496,8 @@ namespace fsw
                 case 9: with_il(n, nz(ch), y, z, [&](IL il) { side.construct(il); }); break;
                 case 10: side.construct(lst.begin(), lst.end()); break;
                 case 11: side.construct(side.at(pi)); break;
-                default: side.construct(side.mv(side.at(pi))); break;
+                case 12: side.construct(side.mv(side.at(pi))); break;
+                default: { SPState<CT> sp{arg.data(), 0, arg.size()}; last_add = n; SIM_PROBE("single_pass_input_range"); side.construct(SinglePass<CT>(&sp), SinglePass<CT>()); } break;
                 }
                 return Ret();
             }, true, true);
@@ -515,11 +537,11 @@ namespace fsw
             int s = st.actor % 3;
             int pi = partner(s, st.c);
             FS_VARIANTS("count_ch", "self_pos_count", "self_pos", "ptr_count", "ptr", "ilist", "range", "self", "self_move",
-                        "string", "string_pos_count", "string_pos", "ptr_count_alias", "ptr_alias");
+                        "string", "string_pos_count", "string_pos", "ptr_count_alias", "ptr_alias", "input_range");
             if (v == 12 && !alias_on) v = 3;
             if (v == 13 && !alias_on) v = 4;
             bool uses_self = v == 1 || v == 2 || v == 7 || v == 8;
-            FS_SCOPE("assign", (pi == s && uses_self) || v >= 12);
+            FS_SCOPE("assign", (pi == s && uses_self) || v == 12 || v == 13);
             size_t plen = model[pi].size();
             size_t slen = model[s].size();
             size_t ak = pos_in(st.c >> 11, slen);
@@ -551,7 +573,8 @@ namespace fsw
                 case 10: t.assign(arg, apos, acnt); break;
                 case 11: t.assign(arg, apos); break;
                 case 12: t.assign(static_cast<const CT*>(t.data()) + ak, an); break;
-                default: t.assign(static_cast<const CT*>(t.c_str()) + ak); break;
+                case 13: t.assign(static_cast<const CT*>(t.c_str()) + ak); break;
+                default: { SPState<CT> sp{arg.data(), 0, arg.size()}; last_add = n; SIM_PROBE("single_pass_input_range"); t.assign(SinglePass<CT>(&sp), SinglePass<CT>()); } break;
                 }
                 return Ret();
             }, true);
@@ -715,15 +738,15 @@ namespace fsw
             int pi = partner(s, st.c);
             FS_VARIANTS("idx_count_ch", "idx_ptr", "idx_ptr_count", "idx_self", "idx_self_idx_count", "idx_self_idx", "idx_string",
                         "idx_string_idx_count", "idx_string_idx", "it_ch", "it_count_ch", "it_ilist", "it_range",
-                        "idx_ptr_count_alias", "idx_ptr_alias");
+                        "idx_ptr_count_alias", "idx_ptr_alias", "it_input_range");
             if (v == 13 && !alias_on) v = 2;
             if (v == 14 && !alias_on) v = 1;
             bool uses_self = v >= 3 && v <= 5;
-            FS_SCOPE("insert", (pi == s && uses_self) || v >= 13);
+            FS_SCOPE("insert", (pi == s && uses_self) || v == 13 || v == 14);
             size_t len = model[s].size(), room = N - std::min(len, N);
             size_t ak = pos_in(st.c >> 11, len);                                  // own characters [ak, ak+an) as the source
             size_t an = std::min(cnt_clamp(st.c >> 23, len - ak), len - ak);
-            size_t idx = v >= 9 ? pos_in(st.a, len) : pos_any(st.a, len);
+            size_t idx = ((v >= 9 && v <= 12) || v == 15) ? pos_in(st.a, len) : pos_any(st.a, len);
             size_t n = cnt_add(st.b, room);
             size_t plen = model[pi].size();
             size_t ppos = pos_any(st.b >> 9, plen);
@@ -735,7 +758,7 @@ namespace fsw
             if (LAYOUT == L_STRLEN) ch = nz(ch);
             auto hp = heap(arg, v == 1);
             std::list<CT> lst(arg.begin(), arg.end());
-            if (v >= 9 && idx == len) SIM_PROBE("iterator_insert_at_end");
+            if (((v >= 9 && v <= 12) || v == 15) && idx == len) SIM_PROBE("iterator_insert_at_end");
             mutate(s, [&](auto side) -> Ret {
                 auto& t = side.tgt();
                 std::ptrdiff_t di = static_cast<std::ptrdiff_t>(idx);
@@ -755,7 +778,9 @@ namespace fsw
                 case 11: { uint64_t r = 0; last_add = 3; with_il(n, nz(ch), y, z, [&](IL il) { auto it = t.insert(t.cbegin() + di, il); r = static_cast<uint64_t>(it - t.begin()); }); return side.rv(r); }
                 case 12: { last_add = n; auto it = t.insert(t.cbegin() + di, lst.begin(), lst.end()); return side.rv(static_cast<uint64_t>(it - t.begin())); }
                 case 13: last_add = an; t.insert(idx, static_cast<const CT*>(t.data()) + ak, an); break;
-                default: last_add = len - ak; t.insert(idx, static_cast<const CT*>(t.c_str()) + ak); break;
+                case 14: last_add = len - ak; t.insert(idx, static_cast<const CT*>(t.c_str()) + ak); break;
+                default: { SPState<CT> sp{arg.data(), 0, arg.size()}; last_add = n; SIM_PROBE("single_pass_input_range");
+                           auto it = t.insert(t.cbegin() + di, SinglePass<CT>(&sp), SinglePass<CT>()); return side.rv(static_cast<uint64_t>(it - t.begin())); }
                 }
                 return Ret();
             }, true);
@@ -793,11 +818,11 @@ namespace fsw
             int s = st.actor % 3;
             int pi = partner(s, st.c);
             FS_VARIANTS("count_ch", "self", "self_pos_count", "self_pos", "string", "string_pos_count", "string_pos", "ptr_count", "ptr",
-                        "ilist", "range", "ptr_count_alias", "ptr_alias");
+                        "ilist", "range", "ptr_count_alias", "ptr_alias", "input_range");
             if (v == 11 && !alias_on) v = 7;
             if (v == 12 && !alias_on) v = 8;
             bool uses_self = v >= 1 && v <= 3;
-            FS_SCOPE("append", (pi == s && uses_self) || v >= 11);
+            FS_SCOPE("append", (pi == s && uses_self) || v == 11 || v == 12);
             size_t len = model[s].size(), room = N - std::min(len, N);
             size_t ak = pos_in(st.c >> 11, len);
             size_t an = std::min(cnt_clamp(st.c >> 23, len - ak), len - ak);
@@ -828,7 +853,8 @@ namespace fsw
                 case 9: last_add = 3; with_il(n, nz(ch), y, z, [&](IL il) { t.append(il); }); break;
                 case 10: last_add = n; t.append(lst.begin(), lst.end()); break;
                 case 11: last_add = an; t.append(static_cast<const CT*>(t.data()) + ak, an); break;
-                default: last_add = len - ak; t.append(static_cast<const CT*>(t.c_str()) + ak); break;
+                case 12: last_add = len - ak; t.append(static_cast<const CT*>(t.c_str()) + ak); break;
+                default: { SPState<CT> sp{arg.data(), 0, arg.size()}; last_add = n; SIM_PROBE("single_pass_input_range"); t.append(SinglePass<CT>(&sp), SinglePass<CT>()); } break;
                 }
                 return Ret();
             }, true);
@@ -924,11 +950,11 @@ namespace fsw
             FS_VARIANTS("pos_count_self", "it_it_self", "pos_count_self_pos_count", "pos_count_self_pos", "pos_count_string", "it_it_string",
                         "pos_count_string_pos_count", "pos_count_string_pos", "pos_count_ptr_count", "it_it_ptr_count", "pos_count_ptr",
                         "it_it_ptr", "pos_count_count_ch", "it_it_count_ch", "it_it_ilist", "it_it_range",
-                        "pos_count_ptr_count_alias", "it_it_ptr_count_alias", "pos_count_ptr_alias", "it_it_ptr_alias");
-            if (v >= 16 && !alias_on) v -= 8;
+                        "pos_count_ptr_count_alias", "it_it_ptr_count_alias", "pos_count_ptr_alias", "it_it_ptr_alias", "it_it_input_range");
+            if (v >= 16 && v <= 19 && !alias_on) v -= 8;
             bool uses_self = v <= 3;
-            bool its = v == 1 || v == 5 || v == 9 || v == 11 || (v >= 13 && v <= 15) || v == 17 || v == 19;
-            FS_SCOPE("replace", (pi == s && uses_self) || v >= 16);
+            bool its = v == 1 || v == 5 || v == 9 || v == 11 || (v >= 13 && v <= 15) || v == 17 || v == 19 || v == 20;
+            FS_SCOPE("replace", (pi == s && uses_self) || (v >= 16 && v <= 19));
             size_t len = model[s].size();
             size_t ak = pos_in(st.c >> 21, len);
             size_t an = std::min(cnt_clamp(st.c >> 33, len - ak), len - ak);
@@ -979,7 +1005,8 @@ namespace fsw
                 case 16: last_add = an; t.replace(pos, cnt, static_cast<const CT*>(t.data()) + ak, an); break;
                 case 17: last_add = an; t.replace(f, l, static_cast<const CT*>(t.data()) + ak, an); break;
                 case 18: last_add = len - ak; t.replace(pos, cnt, static_cast<const CT*>(t.c_str()) + ak); break;
-                default: last_add = len - ak; t.replace(f, l, static_cast<const CT*>(t.c_str()) + ak); break;
+                case 19: last_add = len - ak; t.replace(f, l, static_cast<const CT*>(t.c_str()) + ak); break;
+                default: { SPState<CT> sp{arg.data(), 0, arg.size()}; SIM_PROBE("single_pass_input_range"); t.replace(f, l, SinglePass<CT>(&sp), SinglePass<CT>()); } break;
                 }
                 return Ret();
             }, true);
